@@ -152,7 +152,7 @@ func init() {
 		specs = append(specs, c08Spec(n))
 	}
 	registerRef("C08", "SemVer-family ecosystems implement SemVer 2.0.0 precedence", specs,
-		"per ecosystem: cores x every pre-release identifier list of length 0..2 over a 21-identifier alphabet (digits incl. 0, multi-digit, 17 digits; alphanumerics; mixed case; hyphen-containing and hyphen-leading) plus every list of length 3..4 (thorough: 6) over {0 1 a -} (thorough: all length-3 lists over 8 identifiers) x build-metadata variants; golang additionally the three pseudo-version forms; all ordered pairs against SemVer 2.0.0 section 11 (golang: golang.org/x/mod/semver itself). Strict semver acceptance: all strings <= L over {0 1 a . - +} against the official SemVer grammar. distinct_nontrivial = pairs the reference orders strictly.",
+		"per ecosystem: cores x every pre-release identifier list of length 0..2 over a 21-identifier alphabet (digits incl. 0, multi-digit, 17 digits; alphanumerics; mixed case; hyphen-containing and hyphen-leading) plus every list of length 3..4 (thorough: 6) over {0 1 a -} (thorough: all length-3 lists over 8 identifiers) x build-metadata variants; golang additionally the three pseudo-version forms; all ordered pairs against SemVer 2.0.0 section 11 (golang: golang.org/x/mod/semver itself). Strict semver acceptance: all strings <= L over {0 1 a . - +}, a valid core followed by every tail of <= 5 such characters (as pre-release, as build, and raw) and every core of <= 7 characters over {0 1 9 .}, against the official SemVer grammar. distinct_nontrivial = pairs the reference orders strictly.",
 		[]string{"NuGet identifiers that differ only in letter case are not in the alphabet's claim (case-insensitivity not claimed) - pairs differing only by case are skipped for nuget", "numbers beyond 18 digits are outside the claim"},
 		[]string{"engine/ref/semver.go (SemVer 2.0.0 section 11 and the semver.org grammar)", "golang.org/x/mod/semver v0.22.0 linked into the checker (oracle for golang)", "node-semver 7.6.2 replay: conformance/node_semver.sh"},
 		"conformance/node_semver.sh")
@@ -167,6 +167,15 @@ func init() {
 				L = 9
 			}
 			all := gen.AllStrings(gen.Chars("01a.-+"), L)
+			// a valid core followed by every tail of up to 5 characters (pre-release and build parts
+			// of the lengths the plain enumeration cannot reach), and every core of up to 7 characters
+			for _, t := range gen.AllStrings(gen.Chars("01a.-+"), 5) {
+				all = append(all, "1.0.0"+t, "1.2.3-"+t, "1.2.3+"+t)
+			}
+			for _, c := range gen.AllStrings(gen.Chars("019."), 7) {
+				all = append(all, c+"-a", c)
+			}
+			all = gen.Uniq(all)
 			r.Add("states", int64(len(all)))
 			for _, s := range all {
 				_, err := eco.SafeParse(e, s)
